@@ -5,12 +5,15 @@
    C08_multiset_* ... speak about today's source text), and (2) the headline statements re-proved directly on the regenerated
    text.  The scripts do not name the statement order of the generated text beyond what `unfold` exposes; a change of meaning
    (another slice bound, another comparison, a guess moved or dropped, another separator) leaves an open goal.            *)
+(* Blocks: a line `(* @needs u1 u2 *)` starts a block that is compiled only when the translator produced the units u1, u2 (it fails
+   closed PER FUNCTION); `(* @needs *)` = always.  harness/partlib.paths_translator filters the blocks. *)
 From Coq Require Import NArith ZArith Bool Ascii String Arith List Lia.
-From Pq Require Import Base.Bytes Impl.Partition Impl.Paths Impl.PyPaths Dataset.Merge Proofs.PartitionStr Proofs.PartitionProofs Proofs.PathsProofs.
+From Pq Require Import Base.Bytes Impl.Partition Impl.Paths Impl.PyPaths Impl.PartMeta Dataset.Merge Proofs.PartitionStr Proofs.PartitionProofs Proofs.PathsProofs.
 From PqGen Require Import GenPaths.
 Import ListNotations.
 Local Open Scope nat_scope.
 
+(* @needs analyse *)
 (* ------------------------------------------------------------------------------------------------ analyse_paths *)
 Lemma find_break_first_mismatch : forall (b p : list str) k j,
   py_find_break (fun '(x, y) => negb (str_eqb x y)) (combine b p) k j
@@ -76,6 +79,7 @@ Proof.
   destruct fl as [|f0 fl']; [discriminate|]. cbn [map] in E. injection E as E0 _. subst p0. left. reflexivity.
 Qed.
 
+(* @needs fastrel *)
 (* ------------------------------------------------------------------------------------------------ metadata_from_many, fast path *)
 (* the first-chunk path the footer fast path stores = fast_rel of the merge model (about which C14_fast_slice and
    C14_fast_equals_legacy speak): for base = join of parts and f = join (base parts ++ rest) it is the join of rest *)
@@ -86,6 +90,41 @@ Theorem gen_fast_slice : forall (base rest : list str), rest <> [] -> Forall (fu
   gen_fast_rel (join_with c_slash base) (join_with c_slash (base ++ rest)) = join_with c_slash rest.
 Proof. intros base rest H1 H2. rewrite gen_fast_rel_is_model. apply fast_rel_agrees; assumption. Qed.
 
+(* @needs verify *)
+(* ------------------------------------------------------------------------------------------------ metadata_from_many: verify_schema *)
+From Pq Require Import Dataset.SchemaEq Proofs.SchemaEqProofs.
+
+Lemma existsb_negb_forallb {A} (f : A -> bool) l : existsb (fun x => negb (f x)) l = negb (forallb f l).
+Proof. induction l as [|x l IH]; [reflexivity|]. cbn. rewrite IH. destruct (f x); reflexivity. Qed.
+
+(* the regenerated verification raises exactly when the merge model does: every file after the first is compared with the first *)
+Theorem gen_verify_is_model : forall (S X : Type) (seqb : S -> S -> bool) (pf0 : pfile S X) rest,
+  gen_verify_raises (fun a b => negb (seqb a b)) (map (pf_schema S X) (pf0 :: rest))
+  = negb (forallb (fun pf => seqb (pf_schema S X pf) (pf_schema S X pf0)) rest).
+Proof.
+  intros S X seqb pf0 rest. unfold gen_verify_raises. cbn [map skipn nth_error].
+  destruct rest as [|p r]; [reflexivity|]. cbn [map]. rewrite <- existsb_negb_forallb.
+  change (pf_schema S X p :: map (pf_schema S X) r) with (map (pf_schema S X) (p :: r)).
+  induction (p :: r) as [|q l IH]; [reflexivity|]. cbn [map existsb]. rewrite IH. reflexivity.
+Qed.
+
+(* ... hence, with `!=` on the lists of SchemaElement objects (Dataset/SchemaEq.v: schema_eqb, proved to be element-wise, attribute-wise
+   equality), verification of the regenerated text raises iff some later file's schema is not equivalent to the first file's *)
+Theorem gen_verify_rejects_iff : forall (X : Type) (pf0 : pfile (list elem) X) rest,
+  gen_verify_raises (fun a b => negb (schema_eqb a b)) (map (pf_schema (list elem) X) (pf0 :: rest)) = true
+  <-> exists pf, In pf rest /\ ~ schema_equiv (pf_schema (list elem) X pf) (pf_schema (list elem) X pf0).
+Proof.
+  intros X pf0 rest. rewrite gen_verify_is_model. rewrite negb_true_iff. split.
+  - intros E. assert (Hex : existsb (fun pf => negb (schema_eqb (pf_schema (list elem) X pf) (pf_schema (list elem) X pf0))) rest = true)
+      by (rewrite existsb_negb_forallb, E; reflexivity).
+    apply existsb_exists in Hex. destruct Hex as [pf [Hin Hn]]. exists pf. split; [exact Hin|].
+    intros Heq. apply schema_eqb_iff in Heq. rewrite Heq in Hn. discriminate.
+  - intros [pf [Hin Hn]]. destruct (forallb _ rest) eqn:E; [|reflexivity]. rewrite forallb_forall in E.
+    exfalso. apply Hn, schema_eqb_iff, E, Hin.
+Qed.
+Print Assumptions gen_verify_rejects_iff.
+
+(* @needs strip *)
 (* ------------------------------------------------------------------------------------------------ _strip_path_tail *)
 Lemma split_on_no_char : forall c s, has_char c s = false -> split_on c s = [s].
 Proof.
@@ -100,6 +139,7 @@ Proof.
   destruct (has_char c_slash p) eqn:E; [reflexivity|]. rewrite (split_on_no_char _ _ E). reflexivity.
 Qed.
 
+(* @needs cats *)
 (* ------------------------------------------------------------------------------------------------ paths_to_cats *)
 Lemma forallb_ext_l {A} (f g : A -> bool) l : (forall x, f x = g x) -> forallb f l = forallb g l.
 Proof. intros H. induction l as [|x l IH]; cbn; [reflexivity|]. rewrite H, IH. reflexivity. Qed.
@@ -235,6 +275,7 @@ Print Assumptions gen_paths_to_cats_is_model.
 Print Assumptions gen_path_to_cats_is_model.
 Print Assumptions gen_paths_to_cats_composed.
 
+(* @needs booltexts *)
 (* ------------------------------------------------------------------------------------------------ val_from_meta: the bool literals *)
 Lemma mem_str_incl l1 l2 : forallb (fun t => mem_str t l2) l1 = true -> forall x, mem_str x l1 = true -> mem_str x l2 = true.
 Proof.
@@ -259,6 +300,134 @@ Theorem gen_bool_texts_roundtrip : mem_str (s_ "True") gen_bool_true_texts = tru
 Proof. vm_compute. split; reflexivity. Qed.
 Print Assumptions gen_bool_texts_is_model.
 
+(* @needs valfrommeta booltexts *)
+(* ------------------------------------------------------------------------------------------------ val_from_meta: the dispatch *)
+Lemma dt64ns_kind nt : str_eqb nt dt64ns = true -> kind_of_numpy nt = KTime true.
+Proof. intros H. destruct (str_eqb_spec nt dt64ns) as [E|E]; [rewrite E; reflexivity|discriminate]. Qed.
+
+Lemma kind_time_dt64ns nt ns : kind_of_numpy nt = KTime ns -> str_eqb nt dt64ns = ns.
+Proof.
+  unfold kind_of_numpy, numpy_kinds. cbn [alist_get].
+  repeat match goal with
+         | |- context [if str_eqb nt ?c then _ else _] => let E := fresh "E" in destruct (str_eqb_spec nt c) as [E|E]; [rewrite E|]
+         end; intros H; inversion H; subst; try reflexivity.
+  all: destruct (str_eqb_spec nt dt64ns) as [E'|E']; [exfalso; unfold dt64ns in E'; congruence|reflexivity].
+Qed.
+
+Lemma kind_of_numpy_not_cat nt l : kind_of_numpy nt <> KCat l.
+Proof.
+  unfold kind_of_numpy, numpy_kinds. cbn [alist_get].
+  repeat match goal with
+         | |- context [if str_eqb nt ?c then _ else _] => destruct (str_eqb nt c)
+         end; discriminate.
+Qed.
+
+Section GenMetaProofs.
+  Variables F T D : Type.
+  Variable parse_float : bool -> str -> option F.
+  Variable parse_time_np : bool -> str -> option T.
+  Variable parse_time_fmt : str -> option T.
+  Notation value := (value F T D).
+  Notation parse_base := (parse_base F T D parse_float parse_time_np parse_time_fmt).
+  Notation parse_with_meta := (parse_with_meta F T D parse_float parse_time_np parse_time_fmt).
+  Notation gen_vfm := (gen_val_from_meta F T D (np_scalar_model F T D parse_float parse_time_np parse_time_fmt)
+                                         (timestamp_tz_model F T D parse_time_np) (to_datetime_fmt_model F T D parse_time_fmt)).
+
+  Lemma gen_vfm_simple : forall m x, pm_simple m = true -> gen_vfm x m = parse_base (kind_of_pmeta m) x.
+  Proof.
+    intros [pt nt labels] x Hs. unfold pm_simple in Hs. apply andb_true_iff in Hs. destruct Hs as [Hc Ht].
+    apply negb_true_iff in Hc. cbn [GenPaths.gen_val_from_meta kind_of_pmeta]. rewrite Hc. change (s_ "datetime64[ns]") with dt64ns.
+    destruct (str_eqb pt (s_ "datetimetz")) eqn:Etz.
+    - cbn [andb] in Ht. apply negb_true_iff in Ht. rewrite Ht. unfold timestamp_tz_model. cbn [parse_base Partition.parse_base].
+      destruct (parse_time_np true x); reflexivity.
+    - destruct (str_eqb nt (s_ "bool")) eqn:Eb.
+      + destruct (str_eqb_spec nt (s_ "bool")) as [E|E]; [rewrite E|discriminate]. rewrite gen_bool_texts_is_model. reflexivity.
+      + unfold np_scalar_model. destruct (kind_of_numpy nt) as [sg bits| | |sgl|ns| |lk] eqn:Ek.
+        * assert (Hn : str_eqb nt dt64ns = false).
+          { destruct (str_eqb nt dt64ns) eqn:E; [|reflexivity]. rewrite (dt64ns_kind nt E) in Ek. discriminate. }
+          fold dt64ns. rewrite Hn. destruct (parse_base (KInt sg bits) x); reflexivity.
+        * assert (Hn : str_eqb nt dt64ns = false).
+          { destruct (str_eqb nt dt64ns) eqn:E; [|reflexivity]. rewrite (dt64ns_kind nt E) in Ek. discriminate. }
+          fold dt64ns. rewrite Hn. reflexivity.
+        * fold dt64ns. reflexivity.
+        * assert (Hn : str_eqb nt dt64ns = false).
+          { destruct (str_eqb nt dt64ns) eqn:E; [|reflexivity]. rewrite (dt64ns_kind nt E) in Ek. discriminate. }
+          fold dt64ns. rewrite Hn. destruct (parse_base (KFloat sgl) x); reflexivity.
+        * fold dt64ns. rewrite (kind_time_dt64ns nt ns Ek). unfold to_datetime_fmt_model. cbn [Partition.parse_base].
+          destruct (parse_time_np false x); [reflexivity|]. cbn. destruct ns; reflexivity.
+        * assert (Hn : str_eqb nt dt64ns = false).
+          { destruct (str_eqb nt dt64ns) eqn:E; [|reflexivity]. rewrite (dt64ns_kind nt E) in Ek. discriminate. }
+          fold dt64ns. rewrite Hn. destruct (parse_base KTimeTz x); reflexivity.
+        * assert (Hn : str_eqb nt dt64ns = false).
+          { destruct (str_eqb nt dt64ns) eqn:E; [|reflexivity]. rewrite (dt64ns_kind nt E) in Ek. discriminate. }
+          fold dt64ns. rewrite Hn. reflexivity.
+  Qed.
+
+  (* util.val_from_meta as regenerated (dispatch order: categorical with / without recorded label type, tz-aware, bool, numpy scalar;
+     the ValueError handler with its datetime64[ns] fallback) = parse_with_meta of the model on the kind of the metadata block, for every
+     block as fastparquet writes it (pm_wf) and every text, with numpy's / pandas' conversions as modelled in Impl/PartMeta.v *)
+  Theorem gen_val_from_meta_is_model : forall m x, pm_wf m = true -> gen_vfm x m = parse_with_meta (kind_of_pmeta m) x.
+  Proof.
+    intros [pt nt labels] x Hw. unfold pm_wf in Hw. destruct (str_eqb pt (s_ "categorical")) eqn:Ec.
+    - apply andb_true_iff in Hw. destruct Hw as [Hn Hl]. apply negb_true_iff in Hn.
+      cbn [GenPaths.gen_val_from_meta kind_of_pmeta]. rewrite Ec. fold dt64ns. rewrite Hn.
+      destruct labels as [l|]; [|reflexivity]. cbn [Partition.parse_with_meta].
+      change (GenPaths.gen_val_from_meta F T D _ _ _ x l) with (gen_vfm x l). rewrite (gen_vfm_simple l x Hl).
+      destruct (parse_base (kind_of_pmeta l) x); reflexivity.
+    - rewrite (gen_vfm_simple (PMeta pt nt labels) x Hw). cbn [kind_of_pmeta]. rewrite Ec.
+      destruct (str_eqb pt (s_ "datetimetz")); [reflexivity|]. destruct (kind_of_numpy nt) eqn:Ek; try reflexivity.
+      exfalso. exact (kind_of_numpy_not_cat nt _ Ek).
+  Qed.
+End GenMetaProofs.
+Print Assumptions gen_val_from_meta_is_model.
+
+(* @needs rowfill *)
+(* ------------------------------------------------------------------------------------------------ read_row_group: partition columns *)
+Lemma gen_drill_partitions l : forall k,
+  map (fun '(i, v) => [s_ "dir" ++ show_nat i; v]) (mapi_from (fun i (v : str) => (i, v)) k l)
+  = map (fun kv : str * str => [fst kv; snd kv]) (mapi_from (fun i v => (dir_name i, v)) k l).
+Proof. induction l as [|x l IH]; intros k; [reflexivity|]. cbn [mapi_from map]. rewrite IH. reflexivity. Qed.
+
+Lemma gen_row_partitions_is_model hive path : gen_row_partitions hive path = row_partitions hive path.
+Proof.
+  unfold gen_row_partitions, row_partitions. destruct hive; [reflexivity|]. unfold py_enumerate, drill_hits.
+  apply gen_drill_partitions.
+Qed.
+
+Section GenRowProofs.
+  Variables F T D : Type.
+  Variable feqb : F -> F -> bool.
+  Variable teqb : T -> T -> bool.
+  Variable deqb : D -> D -> bool.
+  Variable f_eq_Z : F -> Z -> bool.
+  Variable parse_float : bool -> str -> option F.
+  Variable parse_time_np : bool -> str -> option T.
+  Variable parse_time_fmt parse_time_pd : str -> option T.
+  Variable parse_delta : str -> option D.
+  Notation val_to_num := (val_to_num F T D parse_float parse_time_np parse_time_fmt parse_time_pd parse_delta).
+  Notation veqb := (veqb F T D feqb teqb deqb f_eq_Z).
+  Notation row_value := (row_value F T D parse_float parse_time_np parse_time_fmt parse_time_pd parse_delta).
+  Notation row_cell := (row_cell F T D feqb teqb deqb f_eq_Z parse_float parse_time_np parse_time_fmt parse_time_pd parse_delta).
+
+  Lemma gen_row_value_is_model hive pm cat labels path :
+    gen_row_value F T D val_to_num hive pm cat labels path = row_value hive pm cat labels path.
+  Proof.
+    unfold GenPaths.gen_row_value, Partition.row_value. rewrite gen_row_partitions_is_model.
+    destruct (filter _ (row_partitions hive path)) as [|p ps]; [reflexivity|].
+    destruct (pair_of p) as [[k v]|]; [|reflexivity]. destruct (forallb (is_vstr F T D) labels); reflexivity.
+  Qed.
+
+  (* the code a row group gets for a partition column, as regenerated from core.read_row_group, = row_cell of the reader model (about
+     which the invariant of the C08 end-to-end proofs and C08_index_lookup speak) *)
+  Theorem gen_row_cell_is_model : forall hive pm path c,
+    gen_row_cell F T D val_to_num veqb hive pm path c = row_cell hive pm path c.
+  Proof.
+    intros hive pm path c. unfold GenPaths.gen_row_cell, Partition.row_cell. rewrite gen_row_value_is_model. reflexivity.
+  Qed.
+End GenRowProofs.
+Print Assumptions gen_row_cell_is_model.
+
+(* @needs *)
 Section GenValueProofs.
   Variables F T D : Type.
   Variable show_float : F -> str.
@@ -269,11 +438,10 @@ Section GenValueProofs.
   Variable parse_delta : str -> option D.
   Notation value := (value F T D).
   Notation show := (show F T D show_float show_time_iso show_time_str).
-  Notation gen_path_string := (gen_path_string F T D show_float show_time_iso show_time_str).
-  Notation gen_val_to_num := (gen_val_to_num F T D parse_float parse_time_pd parse_delta).
-  Notation gen_dir_path := (gen_dir_path F T D show_float show_time_iso show_time_str).
   Notation parse_with_meta := (parse_with_meta F T D parse_float parse_time_np parse_time_fmt).
 
+(* @needs pathstring *)
+  Notation gen_path_string := (gen_path_string F T D show_float show_time_iso show_time_str).
   (* ---------------------------------------------------------------------------------------------- path_string *)
   Theorem gen_path_string_is_show : forall o : value, gen_path_string o = show true o.
   Proof.
@@ -297,6 +465,8 @@ Section GenValueProofs.
     exact (roundtrip_bool F T D show_float parse_float show_time_iso show_time_str parse_time_np parse_time_fmt b true).
   Qed.
 
+(* @needs valtonum *)
+  Notation gen_val_to_num := (gen_val_to_num F T D parse_float parse_time_pd parse_delta).
   (* ---------------------------------------------------------------------------------------------- _val_to_num *)
   Theorem gen_val_to_num_is_model : forall x, gen_val_to_num x = parse_guess F T D parse_float parse_time_pd parse_delta x.
   Proof.
@@ -311,6 +481,8 @@ Section GenValueProofs.
   Theorem gen_guess_int : forall z, gen_val_to_num (show_Z z) = VInt z.
   Proof. intros z. rewrite gen_val_to_num_is_model. exact (guess_int F T D parse_float parse_time_pd parse_delta z). Qed.
 
+(* @needs naming pathstring *)
+  Notation gen_dir_path := (gen_dir_path F T D show_float show_time_iso show_time_str).
   (* ---------------------------------------------------------------------------------------------- directory naming *)
   Lemma gen_hive_segments : forall (names : list str) (key : list value),
     map (fun '(name, val) => py_format [[]; s_ "="; []] [name; gen_path_string val]) (combine names key)
@@ -340,18 +512,25 @@ Section GenValueProofs.
     - rewrite gen_hive_segments. reflexivity.
     - rewrite (gen_drill_segments key names) by (apply Hlen; reflexivity). reflexivity.
   Qed.
+(* @needs *)
 End GenValueProofs.
 
+(* @needs analyse *)
 Print Assumptions gen_analyse_paths_is_model.
 Print Assumptions gen_basepath.
 Print Assumptions gen_basepath_string.
+(* @needs strip *)
 Print Assumptions gen_strip_tail_is_model.
+(* @needs pathstring *)
 Print Assumptions gen_path_string_is_show.
 Print Assumptions gen_int_text_roundtrip.
+(* @needs valtonum *)
 Print Assumptions gen_val_to_num_is_model.
 Print Assumptions gen_guess_int.
+(* @needs naming pathstring *)
 Print Assumptions gen_relname_is_model.
 
+(* @needs strip pathstring naming cats rowfill *)
 (* ------------------------------------------------------------------------------------------------ end to end, hive, on regenerated text
    Writer: pandas' group-by (model `group_by`, premise) with the file of each group named by the REGENERATED naming statements of
    writer.partition_on_columns; reader: the REGENERATED _strip_path_tail, paths_to_cats and _path_to_cats, then the model of
@@ -380,6 +559,7 @@ Section GenE2E.
   Notation val_to_num := (val_to_num F T D parse_float parse_time_np parse_time_fmt parse_time_pd parse_delta).
   Notation cats_add := (cats_add F T D feqb teqb deqb f_eq_Z).
   Notation read_files := (read_files F T D feqb teqb deqb f_eq_Z parse_float parse_time_np parse_time_fmt parse_time_pd parse_delta P).
+  Notation veqb := (veqb F T D feqb teqb deqb f_eq_Z).
   Notation read_model := (read_model F T D feqb teqb deqb f_eq_Z parse_float parse_time_np parse_time_fmt parse_time_pd parse_delta P).
   Notation write_model := (write_model F T D feqb teqb deqb f_eq_Z show_float show_time_iso show_time_str P).
   Notation group_by := (group_by F T D feqb teqb deqb f_eq_Z P).
@@ -390,22 +570,36 @@ Section GenE2E.
   Definition gen_write_model (hive : bool) (names : list str) (chunks : list (list row)) : list (str * list row) :=
     concat (mapi_from (gen_write_chunk hive names) O chunks).
 
-  (* ParquetFile(dir).to_pandas(): scheme and cats through the regenerated functions, cells through the model of read_row_group *)
+  (* every row of the row group stored at `fst f` gets the cells the regenerated fill computes from that path *)
+  Definition gen_read_files (hive : bool) (pm : list (str * kind)) (cats : list (str * list value)) (files : list (str * list row))
+    : option (list (list (str * value) * P)) :=
+    option_map (@concat _)
+      (all_some (map (fun f => option_map (fun cells => map (fun r => (cells, snd r)) (snd f))
+                                          (all_some (map (gen_row_cell F T D val_to_num veqb hive pm (fst f)) cats))) files)).
+
+  (* ParquetFile(dir).to_pandas(): scheme and cats through the regenerated functions, cells through the regenerated fill *)
   Definition gen_read_model (pm : list (str * kind)) (ord : list str -> list str) (files : list (str * list row))
     : option (scheme * list (list (str * value) * P)) :=
     let paths := map fst files in
     match gen_paths_to_cats F T D (gen_path_to_cats F T D val_to_num cats_add) pm paths (ord (dedup_str (map gen_strip_tail paths))) with
-    | Ok (Hive, c) => option_map (pair Hive) (read_files true pm c files)
-    | Ok (Drill, c) => option_map (pair Drill) (read_files false [] c files)
+    | Ok (Hive, c) => option_map (pair Hive) (gen_read_files true pm c files)
+    | Ok (Drill, c) => option_map (pair Drill) (gen_read_files false [] c files)
     | Ok (s, _) => Some (s, concat (map (fun f => map (fun r => ([], snd r)) (snd f)) files))
     | _ => None
     end.
+
+  Lemma gen_read_files_is_model hive pm c files : gen_read_files hive pm c files = read_files hive pm c files.
+  Proof.
+    unfold gen_read_files, Partition.read_files, row_cells. f_equal. f_equal. apply map_ext. intros f. f_equal. f_equal.
+    apply map_ext. intros cc. apply gen_row_cell_is_model.
+  Qed.
 
   Lemma gen_read_model_is_model pm ord files : gen_read_model pm ord files = read_model pm ord files.
   Proof.
     unfold gen_read_model, Partition.read_model. cbv zeta.
     rewrite (gen_paths_to_cats_composed F T D feqb teqb deqb f_eq_Z parse_float parse_time_np parse_time_fmt parse_time_pd parse_delta).
-    rewrite (map_ext gen_strip_tail strip_tail gen_strip_tail_is_model). reflexivity.
+    rewrite (map_ext gen_strip_tail strip_tail gen_strip_tail_is_model).
+    destruct (Partition.paths_to_cats _ _ _ _ _ _ _ _ _ _ _ _ _ _ _) as [[[] c]| |]; try reflexivity; rewrite gen_read_files_is_model; reflexivity.
   Qed.
 
   Lemma mapi_from_ext {A B} (f g : nat -> A -> B) : (forall i x, f i x = g i x) -> forall l i, mapi_from f i l = mapi_from g i l.
@@ -433,5 +627,24 @@ Section GenE2E.
     exact (hive_e2e F T D feqb teqb deqb f_eq_Z show_float parse_float show_time_iso show_time_str
              parse_time_np parse_time_fmt parse_time_pd parse_delta feqb_spec teqb_spec deqb_spec P pm names Hnd Hne Hleg ord Hord chunks Hok).
   Qed.
+
+  (* C08_placement_hive on the regenerated naming: every stored row has non-null keys and lies in the file the REGENERATED statements
+     name for its key; the stored rows are, as a multiset, the rows with non-null keys *)
+  Theorem gen_placement_hive :
+    forall (pm : list (str * kind)) (names : list str) (chunks : list (list row)),
+    frame_ok F T D P names (Pv_hive F T D show_float parse_float show_time_iso show_time_str parse_time_np parse_time_fmt pm) (concat chunks) ->
+    let files := gen_write_model true names chunks in
+    Permutation (concat (map snd files)) (filter (nonnull F T D P) (concat chunks)) /\
+    forall f r, In f files -> In r (snd f) ->
+      nonnull F T D P r = true /\
+      exists i, fst f = gen_relname (gen_dir_path F T D show_float show_time_iso show_time_str true names (key_of F T D P r)) (part_name i).
+  Proof.
+    intros pm names chunks Hok. cbv zeta. rewrite gen_write_model_hive.
+    destruct (hive_placement F T D feqb teqb deqb f_eq_Z show_float parse_float show_time_iso show_time_str
+                parse_time_np parse_time_fmt parse_time_pd parse_delta feqb_spec teqb_spec deqb_spec P pm names chunks Hok) as [H1 H2].
+    split; [exact H1|]. intros f r Hf Hr. destruct (H2 f r Hf Hr) as [Hn [i Hi]]. split; [exact Hn|]. exists i. rewrite Hi.
+    symmetry. apply (gen_relname_is_model F T D show_float show_time_iso show_time_str). discriminate.
+  Qed.
 End GenE2E.
 Print Assumptions gen_multiset_hive.
+Print Assumptions gen_placement_hive.
